@@ -10,8 +10,14 @@ args = sys.argv[1:]
 run_tests = False
 if args and args[0] == '--tests':
     run_tests = True; args = args[1:]
-def sh(cmd, **kw):
-    return subprocess.run(cmd, shell=True, capture_output=True, text=True, **kw)
+def sh(cmd, timeout=900, **kw):
+    try:
+        return subprocess.run(cmd, shell=True, capture_output=True, text=True, timeout=timeout, **kw)
+    except subprocess.TimeoutExpired:
+        subprocess.run("pkill -9 -f 'deps/raqote-' ; pkill -9 -f 'release/rqv'", shell=True)
+        class R: pass
+        r = R(); r.returncode = 124; r.stdout = 'TIMEOUT\n'; r.stderr = ''
+        return r
 st = sh('git -C /repo status --porcelain --untracked-files=no').stdout.strip()
 if st:
     print('refusing: /repo is dirty:\n' + st); sys.exit(2)
@@ -31,7 +37,7 @@ try:
             print(f'expected exactly one occurrence of {old!r} in {f}, found {n}'); sys.exit(2)
         open(p, 'w').write(s.replace(old, new))
     if run_tests:
-        r = sh('cd /repo && cargo test --offline 2>&1 | grep -E "^test result|FAILED|failed" | head -5')
+        r = sh('cd /repo && timeout -s KILL 120 cargo test --offline 2>&1 | grep -E "^test result|FAILED|failed" | head -5; pkill -9 -f deps/raqote- ', timeout=200)
         print('repo tests:', r.stdout.strip().replace('\n', ' | '))
     for i in ids:
         tier = 'quick'
@@ -39,7 +45,7 @@ try:
             i, tier = i.split(':')
         t = time.time()
         r = sh(f'/verif/check {i} {tier}')
-        lines = [l for l in r.stdout.splitlines() if l.startswith(('VIOLATION', 'failure', 'HARNESS', 'BUILD', 'GENERATOR', 'WATCHDOG', 'KNOWN'))]
+        lines = [l for l in r.stdout.splitlines() if l.startswith(('VIOLATION', 'failure', 'HARNESS', 'BUILD', 'GENERATOR', 'WATCHDOG', 'TIMEOUT'))]
         print(f'{i} {tier}: exit={r.returncode} {time.time()-t:.1f}s', ' || '.join(l[:300] for l in lines[:3]))
 finally:
     sh('git -C /repo checkout -- .')
